@@ -23,8 +23,8 @@ SRC = REPO / "src" / "qtlogger"
 M = []
 
 
-def mut(mid, file, old, new, checks, note=""):
-    M.append({"id": mid, "file": file, "old": old, "new": new, "checks": checks, "note": note})
+def mut(mid, file, old, new, checks, note="", beyond=False):
+    M.append({"id": mid, "file": file, "old": old, "new": new, "checks": checks, "note": note, "beyond": beyond})
 
 
 R = "sinks/rotatingfilesink.cpp"
@@ -50,6 +50,15 @@ mut("rot-date-today", R, "const auto rotationDate = m_currentLogDate.isValid() ?
 mut("rot-sort-newest-first", R, "                return a.modified < b.modified;", "                return a.modified > b.modified;", ["C06"])
 mut("rot-maxcount1-rotates", R, "        if (m_maxFileCount == 1)\n            return;\n\n        q_ptr->file()->close();", "        q_ptr->file()->close();", ["C06", "C05"])
 mut("file-flush-noop", "sinks/filesink.cpp", "    return file()->flush();", "    return true;", ["C11"])
+# the modules beyond the listed properties (QtlLineSinks, QtlEnv): a deviation is a NOTE line of C01 that says "rejected"
+B = "beyond the list: counted as caught when C01 prints a NOTE line saying that the specification rejected histories"
+mut("syslog-warning-as-err", "sinks/syslogsink.cpp", "priority = LOG_WARNING;", "priority = LOG_ERR;", ["C01"], B, beyond=True)
+mut("syslog-formatted-text", "sinks/syslogsink.cpp", "formattedMessage = lmsg.message();\n    } else", "formattedMessage = lmsg.formattedMessage();\n    } else", ["C01"], B, beyond=True)
+mut("uuid-not-stored", "attrhandlers/appuuidattr.cpp", "        settings.setValue(QStringLiteral(\"app_uuid\"), uuid);\n", "", ["C01"], B, beyond=True)
+mut("uuid-with-braces", "attrhandlers/appuuidattr.cpp", "uuid = QUuid::createUuid().toString(QUuid::WithoutBraces);", "uuid = QUuid::createUuid().toString();", ["C01"], B, beyond=True)
+mut("appinfo-live-name", "attrhandlers/appinfoattrs.cpp", "    Q_UNUSED(lmsg)\n    return m_attrs;", "    Q_UNUSED(lmsg)\n    auto a = m_attrs;\n    a[QStringLiteral(\"appname\")] = QCoreApplication::applicationName();\n    return a;", ["C01"], B, beyond=True)
+mut("iodev-raw-message", "sinks/iodevicesink.cpp", "    m_device->write(lmsg.formattedMessage().toLocal8Bit().append(\"\\n\"));", "    m_device->write(lmsg.message().toLocal8Bit().append(\"\\n\"));", ["C01"],
+    "IODeviceSink writes the raw message instead of the formatted text; " + B, beyond=True)
 mut("iodev-utf8-latin1", "sinks/iodevicesink.cpp", "lmsg.formattedMessage().toLocal8Bit().append(\"\\n\")", "lmsg.formattedMessage().toLatin1().append(\"\\n\")", ["C05", "C19"])
 mut("json-compact-swapped", "formatters/jsonformatter.cpp", "m_compact ? QJsonDocument::Compact\n                                                                 : QJsonDocument::Indented",
     "m_compact ? QJsonDocument::Indented\n                                                                 : QJsonDocument::Compact", ["C13"])
@@ -166,6 +175,8 @@ def run_checks(m):
         out = p.stdout + p.stderr
         res[c] = {"rc": p.returncode, "violations": out.count("\nVIOLATION") + (1 if out.startswith("VIOLATION") else 0),
                   "notes": sum(1 for l in out.splitlines() if l.startswith("NOTE")),
+                  # NOTE lines of the modules beyond the listed properties that say "the specification rejected ... histories"
+                  "notes_rejecting": sum(1 for l in out.splitlines() if l.startswith("NOTE") and ("rejected" in l or "not explained" in l)),
                   "tool_failure": "TOOL-FAILURE" in out or p.returncode not in (0, 1),
                   "tail": out[-300:] if p.returncode not in (0, 1) else ""}
         if bak.exists():
@@ -198,7 +209,7 @@ def main():
             r = run_checks(m)
         finally:
             subprocess.run(["git", "-C", str(REPO), "checkout", "--", "."], check=True)
-        caught = [c for c, v in r.items() if v["violations"] > 0]
+        caught = [c for c, v in r.items() if v["violations"] > 0 or (m.get("beyond") and v.get("notes_rejecting", 0) > 0)]
         print(f"{m['id']:40s} caught_by={caught or '-'} " + " ".join(f"{c}:rc={v['rc']},viol={v['violations']},notes={v['notes']}" for c, v in r.items()), flush=True)
         results[m["id"]] = {"file": m["file"], "note": m["note"], "checks": r, "caught_by": caught}
         outp.write_text(json.dumps(results, indent=1))
